@@ -361,6 +361,114 @@ pub fn run_cap(case: &CapCase, ctx: &mut Ctx) -> R {
     Ok(())
 }
 
+// ------------------------------------------------------------------ cap that is re-set during the history
+
+#[derive(Clone, Debug, Serialize, Deserialize)]
+pub enum RcOp {
+    /// set_cap(supply + d) or an absolute value
+    SetCapRel(i16),
+    SetCapAbs(#[serde(with = "crate::gen::i128_str")] i128),
+    Mint(u16, Amt),
+    /// burn k/4 of the holder's balance
+    Burn(u16, u8),
+}
+#[derive(Clone, Debug, Serialize, Deserialize)]
+pub struct RcCase {
+    #[serde(with = "crate::gen::i128_str")]
+    pub cap: i128,
+    pub ops: Vec<RcOp>,
+}
+fn rc_strategy(tier: Tier) -> BoxedStrategy<RcCase> {
+    let amt = prop_oneof![
+        5 => (-2i8..=2).prop_map(Amt::CapGap),
+        3 => (0i128..=3000).prop_map(Amt::Abs),
+        1 => crate::gen::amount_any().prop_map(Amt::Abs),
+    ];
+    let op = prop_oneof![
+        3 => prop_oneof![-1500i16..=1500, -3i16..=3].prop_map(RcOp::SetCapRel),
+        1 => prop_oneof![0i128..=5000, crate::gen::amount_any()].prop_map(RcOp::SetCapAbs),
+        6 => (any::<u16>(), amt).prop_map(|(to, a)| RcOp::Mint(to, a)),
+        2 => (any::<u16>(), 0u8..=4).prop_map(|(h, k)| RcOp::Burn(h, k)),
+    ];
+    (0i128..=4000, proptest::collection::vec(op, 1..tier.pick(30usize, 60usize))).prop_map(|(cap, ops)| RcCase { cap, ops }).boxed()
+}
+pub fn run_resettable_cap(case: &RcCase, ctx: &mut Ctx) -> R {
+    use crate::contracts::c16::ft_capped::FtCapped;
+    let e = envx::new_env(100, envx::BIG_TTL);
+    let accts = envx::actors(&e, 3);
+    let c = e.register(FtCapped, (case.cap,));
+    let mut cap = case.cap;
+    let mut supply: i128 = 0;
+    let (mut lowered_below, mut refused_under_lowered, mut ok_mint) = (false, false, false);
+    for (i, op) in case.ops.iter().enumerate() {
+        match op {
+            RcOp::SetCapRel(_) | RcOp::SetCapAbs(_) => {
+                let v = match op {
+                    RcOp::SetCapRel(d) => supply.saturating_add(*d as i128),
+                    RcOp::SetCapAbs(x) => *x,
+                    _ => unreachable!(),
+                };
+                envx::no_auth(&e);
+                let r = call(&e, &c, "set_cap", args![&e; v]);
+                ctx.op(r.is_ok());
+                if r.is_ok() {
+                    cap = v;
+                    if cap < supply {
+                        lowered_below = true;
+                        ctx.class("cap_lowered_below_supply");
+                    }
+                }
+                let q = envx::call_t::<i128>(&e, &c, "cap", args![&e]).map_err(|er| violation("C16/cap/query_cap-failed", er))?;
+                ensure!(q == cap, "C16/cap/query-mismatch", "step {i}: query_cap = {q}, last successfully set cap = {cap}");
+            }
+            RcOp::Mint(to, amt) => {
+                let a = match amt {
+                    Amt::Abs(x) => *x,
+                    Amt::CapGap(d) => (cap - supply).saturating_add(*d as i128),
+                    _ => 1,
+                };
+                let to = accts[pick(*to, accts.len())].clone();
+                envx::no_auth(&e);
+                let r = call(&e, &c, "mint", args![&e; to, a]);
+                ctx.op(r.is_ok());
+                let s2 = envx::call_t::<i128>(&e, &c, "total_supply", args![&e]).map_err(|er| violation("C16/cap/total_supply-failed", er))?;
+                if r.is_ok() {
+                    if s2 > supply {
+                        ensure!(
+                            s2 <= cap,
+                            "C16/cap/supply-above-cap",
+                            "step {i}: a cap-checked mint of {a} lifted the supply {supply} -> {s2} above the cap {cap}"
+                        );
+                        ok_mint = true;
+                    }
+                    supply = s2;
+                } else {
+                    ensure!(s2 == supply, "C16/cap/refused-mint-changed-supply", "step {i}: refused mint changed the supply {supply} -> {s2}");
+                    if cap < supply && a > 0 {
+                        refused_under_lowered = true;
+                        ctx.class("mint_refused_while_cap_below_supply");
+                    }
+                }
+            }
+            RcOp::Burn(h, k) => {
+                let who = accts[pick(*h, accts.len())].clone();
+                let bal = envx::call_t::<i128>(&e, &c, "balance", args![&e; who.clone()]).map_err(|er| violation("C16/cap/balance-failed", er))?;
+                let a = bal / 4 * (*k as i128);
+                envx::set_auth(&e, &[(&who, &Inv::new(&c, "burn", args![&e; who.clone(), a]))]);
+                let r = call(&e, &c, "burn", args![&e; who.clone(), a]);
+                envx::no_auth(&e);
+                ctx.op(r.is_ok());
+                supply = envx::call_t::<i128>(&e, &c, "total_supply", args![&e]).map_err(|er| violation("C16/cap/total_supply-failed", er))?;
+            }
+        }
+    }
+    if lowered_below && refused_under_lowered && ok_mint {
+        ctx.nontrivial = true;
+        ctx.class("nontrivial_resettable_cap");
+    }
+    Ok(())
+}
+
 // ------------------------------------------------------------------ upgrade / migrate
 
 #[derive(Clone, Debug, Serialize, Deserialize)]
@@ -505,7 +613,7 @@ pub fn property() -> Property {
         rule: "gate subs: case = (flavour, 2..4 funded accounts, generated initial list membership, history of <=35 (thorough 70) token entry points \
                interleaved with allow/disallow, block/unblock, pause/unpause, each with an auth mode); non-trivial = >=3 distinct (entry point, closed gate) pairs refused \
                AND an entry point succeeding after a gate was re-opened. pausable-example: increment refused while paused and working after unpause. \
-               cap: a mint exactly to the cap, one refused above it. migration: a completed migrate plus a refused second/unprepared migrate. distinct = distinct serialised case",
+               cap: a mint exactly to the cap, one refused above it; cap-resettable: the cap lowered below the supply, a mint refused meanwhile and a mint accepted. migration: a completed migrate plus a refused second/unprepared migrate. distinct = distinct serialised case",
         subs: vec![
             gate_sub!("allow", Flavor::Allow, 1500, 30000),
             gate_sub!("block", Flavor::Block, 1500, 30000),
@@ -514,6 +622,7 @@ pub fn property() -> Property {
             gate_sub!("ex-pausable", Flavor::ExPausable, 1500, 30000),
             gen_sub::<PCase>("pausable-example", 800, 16000, pcase_strategy, run_pausable),
             gen_sub::<CapCase>("cap", 1500, 30000, cap_strategy, run_cap),
+            gen_sub::<RcCase>("cap-resettable", 1500, 30000, rc_strategy, run_resettable_cap),
             gen_sub::<MigCase>("migration", 800, 16000, mig_strategy, run_migration),
         ],
         floors: vec![],
